@@ -205,7 +205,7 @@ def predict(case):
         has_any = "SPDX-" in text
         # the existing header is merged only when the effective style can find it
         written_style = None if to_license else m.get("style")
-        findable = has_any and (eff_style == written_style)
+        findable = has_any and _same_syntax(eff_style, written_style)
         existing_lic = findable and "SPDX-License-Identifier" in text
         if opts.get("skip_existing") and has_any:
             skipped = True
@@ -226,6 +226,19 @@ def predict(case):
                     fail = True
         out[p] = {"target": target, "skipped": skipped, "fail": fail, "sibling": sib}
     return out
+
+
+def _same_syntax(eff, written):
+    """Can a header written in style *written* (single-line form when the style has one) be found by style *eff*?"""
+    if eff == written:
+        return True
+    if eff is None or written is None:
+        return False
+    ws, _, wm, *_ = G.STYLES[written]
+    es, _, em, *_ = G.STYLES[eff]
+    if ws:
+        return bool(es) and es == ws
+    return bool(em[0]) and (em[0], em[2]) == (wm[0], wm[2])
 
 
 def _has_header(case, p):
